@@ -66,11 +66,12 @@ def to_datetime_utc(time: input_types) -> Union[datetime, Sequence[datetime], No
                 )
 
         elif isinstance(time, np.datetime64):
-            # We first cast datetime64 explicitly to seconds and then as a float to
-            # allow for fractional seconds.
-            return datetime.fromtimestamp(
-                np.datetime64(time, "s").astype("float64"), tz=timezone.utc
-            ).replace(tzinfo=timezone.utc)
+            # We first cast datetime64 explicitly to microseconds (the resolution of
+            # datetime) to allow for fractional seconds.
+            microseconds = int(np.datetime64(time, "us").astype("int64"))
+            return datetime(1970, 1, 1, tzinfo=timezone.utc) + timedelta(
+                microseconds=microseconds
+            )
 
         elif isinstance(time, Number):
             return datetime.fromtimestamp(time, tz=timezone.utc)  # type: ignore
